@@ -71,7 +71,13 @@ fn palette_of_hex(s: &str) -> Option<Palette> {
     }
     let l = colours_of_hex(s);
     let raw: [RgbColor; 16] = l.try_into().ok()?;
-    Some(Palette::from(raw))
+    let p = Palette::from(raw);
+    // the platform default (not Windows: the VGA table) is reached through `Palette::default()` / `DEFAULT`
+    if p == anstyle_lossy::palette::VGA {
+        assert!(Palette::default() == p && anstyle_lossy::palette::DEFAULT == p, "Palette::default()");
+        return Some(if raw[1].0 % 2 == 0 { Palette::default() } else { anstyle_lossy::palette::DEFAULT });
+    }
+    Some(p)
 }
 
 fn hex_rgb(c: RgbColor) -> String {
